@@ -188,6 +188,7 @@ def subspaces(tier):
                     yield {'k': 'edge', 'hist': list(h), 'tok': t, 'state': repr(s)}
     subs.append(('b:model-graph-nesting<=%d(%d states,%d edges)' % (depth, len(order), len(edges)), trans()))
     subs.append(('c:condition-forms', list(condforms())))
+    subs.append(('d:skipped-statement-has-no-effect', list(skipforms())))
     return subs
 
 
@@ -267,6 +268,8 @@ def evaluate(case):
         r = run_seq(full, 'edge')
         r['states'] = [case['state'], repr(n)]
         return r
+    if case['k'] == 'skip':
+        return eval_skip(case)
     return eval_cond(case)
 
 
@@ -366,3 +369,71 @@ def eval_cond(case):
     if txt.count('warning') != wantwarn:
         return core.R(False, 'cond-warning', 'cond/warning/' + case['k'], 'warnings %d model %d on %s' % (txt.count('warning'), wantwarn, src))
     return core.R(True, 'cond-ok', states=['cond:' + '\n'.join(src)])
+
+
+# ---- (d) statements in non-selected branches have no effect (differential oracle) -----------------
+
+SKIP_CTX = [
+    ['if 0', 'X', 'endif'],
+    ['if 1', 'else', 'X', 'endif'],
+    ['if 0', 'elseif 0', 'X', 'endif'],
+    ['if 1', 'elseif 1', 'X', 'endif'],
+    ['if 0', 'elseif 1', 'else', 'X', 'endif'],
+    ['if 0', 'if 1', 'X', 'endif', 'endif'],
+    ['if 0', 'if 1', 'else', 'X', 'endif', 'endif'],
+    ['if 1', 'else', 'if 1', 'X', 'endif', 'endif'],
+    ['switch 5', 'case 4', 'X', 'elsecase', 'endcase'],
+    ['switch 5', 'case 5', 'case 5', 'X', 'endcase'],
+    ['switch 5', 'case 5', 'elsecase', 'X', 'endcase'],
+    ['switch 5', 'case 5', 'case 6', 'X', 'elsecase', 'endcase'],
+    ['if 0', 'switch 5', 'case 5', 'X', 'endcase', 'endif'],
+    ['if 0', 'switch 5', 'elsecase', 'X', 'endcase', 'endif'],
+    ['ifdef nosuch', 'X', 'endif'],
+    ['ifndef nosuch', 'else', 'X', 'endif'],
+    ['ifb x', 'X', 'endif'],
+    ['ifnexist "absent.inc"', 'else', 'X', 'endif'],
+]
+SKIP_STMT = [
+    ['sym:\tnop'], ['sym:'], ['sym\tequ 1'], ['sym\tset 1'], ['sym\t= 1'], ['sym\t:= 1'], ['sym:\tmac'], ['sym\tmac'], ['\tmac'],
+    ['sym:\tdb 77'], ['\tdb 77'], ['\torg 100h'], ['\tcpu 8085'], ['\tcharset \'a\',1'], ['\tradix 16'], ['\tphase 200h'],
+    ['\tsegment data'], ['\terror "x"'], ['\twarning "x"'], ['\tfatal "x"'], ['\tinclude "def.inc"'], ['\tinclude "absent.inc"'],
+    ['sym\tmacro', '\tdb 5', '\tendm'], ['mac\tmacro', '\tdb 6', '\tendm'], ['\tsection s', 'sym:', '\tpublic sym', '\tendsection'],
+    ['sym\tstruct', 'f\tdb ?', 'sym\tendstruct'], ['\tsave'], ['\trestore'], ['\tds 3'], ['\talign 16'], ['sym\tlabel 5'],
+    ['\tpushv s,other'], ['\tpopv s,other'], ['other\tset 9'], ['sym\tfunction x,x+1'], ['\trept 2', '\tdb 8', '\tendm'],
+    ['\tirp q,1,2', '\tdb q', '\tendm'], ['\tnosuchinstruction'], ['\tdb 300'], ['\tdb undefinedsym'], ['\tend'], ['\trelaxed on'],
+    ['\tread sym'], ['\texitm'], ['\tshift'], ['\tendm'], ['\tendsection'], ['\tendstruct'], ['\tdephase'],
+]
+SKIP_TAIL = ['\tifdef sym', '\tdb 1', '\telse', '\tdb 2', '\tendif', '\tdb MOMCPU&255', '\tdb \'a\'', '\tdb 10', '\tdb other', 'here:\tdw here',
+             '\tmac', '\tdb (5+3)*2']
+SKIP_HEAD = ['\tcpu 8080', 'mac\tmacro', '\tdb 4', '\tendm', 'other\tset 3']
+
+
+def skipforms():
+    for ci, ctx in enumerate(SKIP_CTX):
+        for si, st in enumerate(SKIP_STMT):
+            yield {'k': 'skip', 'ctx': ci, 'stmt': si}
+
+
+def eval_skip(case):
+    ctx, st = SKIP_CTX[case['ctx']], SKIP_STMT[case['stmt']]
+    res = []
+    for with_x in (True, False):
+        body = []
+        for l in ctx:
+            if l == 'X':
+                body += st if with_x else []
+            else:
+                body.append('\t' + l)
+        core.fresh()
+        core.put('def.inc', 'sym\tequ 7\n')
+        core.put('a.asm', '\n'.join(SKIP_HEAD + body + SKIP_TAIL) + '\n')
+        o = core.run('asl', ['-q', 'a.asm'])
+        ck = core.crashkind(o)
+        if ck:
+            return core.R(False, ck, 'skip/crash/' + ck, '%s on skipped %s in %s' % (ck, st, ctx), transitions=2)
+        res.append((o.rc, core.get('a.p'), len((o.out + o.err).strip().split(b'\n')) if (o.out + o.err).strip() else 0))
+    if res[0] != res[1] or res[1][0] != 0:
+        what = 'rc' if res[0][0] != res[1][0] else 'code' if res[0][1] != res[1][1] else 'diagnostics'
+        return core.R(False, 'skip-effect', 'skip/effect/%s/%s' % (what, st[0].strip().replace('\t', ' ')[:24]),
+                      'statement %s in the non-selected branch of %s changes the result (%s): with rc=%s, without rc=%s' % (st, ctx, what, res[0][0], res[1][0]), transitions=2)
+    return core.R(True, 'skip-no-effect', states=['skip:%d:%d' % (case['ctx'], case['stmt'])], transitions=2)
